@@ -27,7 +27,10 @@ RULE = (
     "drain, fill-overflow, pop-on-empty, random mix, sorted/reverse/permuted insertion; thorough adds exhaustive small "
     "scope (all scripts of length <= 6 over {push p in 0..2, pop, peek} for cap 0..3; all 5040 insertion orders of 7 "
     "distinct priorities and all 3^6 priority words, each followed by a full drain). non-trivial = at least 3 "
-    "successful pushes and one successful pop/peek (sift loops run) or the script ends in a panic; distinct by request line"
+    "successful pushes and one successful pop/peek (sift loops run) or the script ends in a panic; distinct by request line. "
+    "Compiled path: per capacity one Guppy program interpreting a run-time op script (quick: PQ cap 3/6, Stack cap 3, 160 scripts; "
+    "thorough: 9 programs, ~2400 scripts) plus straight-line programs with the script as literals (6 / 40), each ending in a "
+    "`for` loop over the collection; every script run in the default and the adversarial schedule"
 )
 ASSUMPTIONS = [
     "Guppy source executed as Python means what the compiled Guppy program means (that claim is property C03); "
@@ -37,9 +40,14 @@ ASSUMPTIONS = [
     "in states reachable from empty_stack()/empty_priority_queue() (the fields are public, a hand-built struct is outside the property)",
     "the Lean model Model/Coll.lean is hand-written; agreement with the Python bodies is established by the same-script "
     "correspondence run here (results and final buffer contents)",
+    "compiled path: harness/hugr_interp.py gives the HUGR ops their documented semantics (borrow_array, Option sums, int ops, "
+    "prelude.panic, tket.result; validated against CPython and the real 1.0.4 emulator, notes/INTERP.md); it is a sampling "
+    "oracle over the real lowering, not a proof about the compiler",
 ]
 UNMODELLED = [
-    "lowering of these methods to HUGR and the runtime's implementation of arrays/options (no emulator for /repo output)",
+    "the production runtime (selene) executing /repo's HUGR: the compiled path is observed on the reference interpreter only, on "
+    "sampled driver programs (lowering of the std methods, struct fields, array borrow/return, Option ops and the for-loop "
+    "protocol are exercised there, not proved)",
     "linearity of non-copyable elements (the type checker's job, C06)",
     "64-bit wrap-around of index arithmetic for MAX_SIZE >= 2^62",
 ]
@@ -51,12 +59,15 @@ MANIFEST = {
     "entries), pushing at capacity and popping/peeking when empty panic with the right panic and nothing else ever panics; "
     "loop fuel proved sufficient on every state; iteration yields the entries in priority order. The model keeps every take/swap/unwrap/index error branch of the source. Tie: the real "
     "method bodies from /repo executed under CPython with shims vs the model on the same scripts (quick ~1500 scripts, "
-    "thorough ~10^5 incl. exhaustive small scope), results and final buffers compared.",
+    "thorough ~10^5 incl. exhaustive small scope), results and final buffers compared; second, independent tie on the compiled path: "
+    "Guppy driver programs lowered by the real compiler and run on the reference HUGR interpreter (both schedules) must produce the "
+    "model's result trace/panic and satisfy the list / multiset-min oracle.",
     "level_note": "Trusted: Lean kernel + propext/Classical.choice/Quot.sound; the CPython shims for Option/array/panic; that "
     "executing Guppy source as Python is faithful (C03); hand-written model tied by sampling + exhaustive small scope. "
-    "Runtime (HUGR lowering, emulator) is outside the repository's decision and unmodelled.",
+    "The compiled path is sampled through harness/hugr_interp.py (validated against the 1.0.4 emulator); the production runtime on "
+    "/repo's output is unobservable here.",
     "technique": "Lean 4 refinement proof (concrete option-buffer model -> pure array heap -> multiset/list ADT) + T-exec "
-    "correspondence of the real Guppy method bodies under CPython",
+    "correspondence of the real Guppy method bodies under CPython + T-hugr: real lowering run on the reference HUGR interpreter",
     "design_ref": "DESIGN.md §5 C27",
     "ready": True,
 }
@@ -426,11 +437,13 @@ class _Gen:
         self.tag += 1
         return ("push", self.tag, self.rng.choice(prios))
 
-    def script(self, maxcap):
+    def script(self, maxcap, kind=None, cap=None):
         rng = self.rng
         self.tag = 0
-        kind = "pq" if rng.random() < 0.7 else "stack"
-        cap = rng.choice([0, 1, 2, 3, 4, 5, 7, 8, maxcap, rng.randrange(0, maxcap + 1)])
+        k0 = "pq" if rng.random() < 0.7 else "stack"
+        c0 = rng.choice([0, 1, 2, 3, 4, 5, 7, 8, maxcap, rng.randrange(0, maxcap + 1)])
+        kind = k0 if kind is None else kind
+        cap = c0 if cap is None else cap
         pk = rng.random()
         if pk < 0.45:
             prios = list(range(rng.choice([1, 2, 3, 4])))
@@ -588,12 +601,232 @@ def _evaluate(ctx, real, cases, tag=""):
             ctx.broke(f"correspondence Model/Coll.lean vs {'stack.py' if kind == 'stack' else 'priority_queue.py'} on `{line}` (real=`{r}` model=`{m}`)")
 
 
+
+# ----------------------------------------------------------------------------- compiled path (T-hugr)
+# Second, independent tie: Guppy driver programs are lowered by /repo's REAL compiler (feed.load/feed.lower) and the
+# lowered HUGR is run on the reference interpreter harness/hugr_interp.py (notes/INTERP.md) in the default and the
+# adversarial schedule.  The `result` trace / panic must equal the Lean model's reply for the same script and satisfy the
+# Python oracle.  This covers what T-exec cannot see: the lowering of the std methods (struct field access, array
+# borrow/return, Option take/swap/unwrap, the for-loop protocol over `__iter__`/`__next__`).
+
+_HPRE = (
+    "from guppylang.std.collections.priority_queue import PriorityQueue, empty_priority_queue\n"
+    "from guppylang.std.collections.stack import Stack, empty_stack\n"
+)
+_OPCODE = {"push": 1, "pop": 2, "peek": 3, "len": 4}
+
+
+def _interp_src(kind, cap, L):
+    """a Guppy program that interprets a RUN-TIME op script (arrays of op codes / values / priorities) on a fresh
+    collection of capacity `cap`, reports every observation with result(), then iterates the collection to the end."""
+    if kind == "pq":
+        return f"""
+@guppy
+def main(ops: array[int, {L}], vals: array[int, {L}], prios: array[int, {L}]) -> None:
+    q: PriorityQueue[int, {cap}] = empty_priority_queue()
+    for i in range({L}):
+        op = ops[i]
+        if op == 1:
+            q = q.push(vals[i], prios[i])
+            result("u", 0)
+        elif op == 2:
+            p, v, q = q.pop()
+            result("p", p)
+            result("v", v)
+        elif op == 3:
+            p, v, q = q.peek()
+            result("p", p)
+            result("v", v)
+        elif op == 4:
+            result("n", len(q))
+    for p, v in q:
+        result("p", p)
+        result("v", v)
+    result("done", 0)
+"""
+    return f"""
+@guppy
+def main(ops: array[int, {L}], vals: array[int, {L}], prios: array[int, {L}]) -> None:
+    s: Stack[int, {cap}] = empty_stack()
+    for i in range({L}):
+        op = ops[i]
+        if op == 1:
+            s = s.push(vals[i])
+            result("u", 0)
+        elif op == 2:
+            v, s = s.pop()
+            result("v", v)
+        elif op == 3:
+            v, s = s.peek()
+            result("v", v)
+        elif op == 4:
+            result("n", len(s))
+    for v in s:
+        result("v", v)
+    result("done", 0)
+"""
+
+
+def _straight_src(kind, cap, ops):
+    """a straight-line Guppy program performing the given script (literals in the source), then iterating to the end."""
+    is_pq = kind == "pq"
+    c = "q"
+    lines = ["@guppy", "def main() -> None:",
+             f"    q: {'PriorityQueue' if is_pq else 'Stack'}[int, {cap}] = {'empty_priority_queue' if is_pq else 'empty_stack'}()"]
+    for op in ops:
+        k = op[0]
+        if k == "push":
+            lines.append(f"    q = q.push({op[1]}, {op[2]})" if is_pq else f"    q = q.push({op[1]})")
+            lines.append('    result("u", 0)')
+        elif k in ("pop", "peek"):
+            if is_pq:
+                lines += [f"    p, v, q = q.{k}()", '    result("p", p)', '    result("v", v)']
+            else:
+                lines += [f"    v, q = q.{k}()", '    result("v", v)']
+        elif k == "len":
+            lines.append('    result("n", len(q))')
+    if is_pq:
+        lines += ["    for p, v in q:", '        result("p", p)', '        result("v", v)']
+    else:
+        lines += ["    for v in q:", '        result("v", v)']
+    lines.append('    result("done", 0)')
+    return "\n".join(lines) + "\n"
+
+
+def _trace_tokens(kind, r):
+    """interpreter run -> the token list of the Lean driver / CPython reply"""
+    toks, pend = [], None
+    for tag, val in r.trace:
+        if tag == "u":
+            toks.append("u")
+        elif tag == "n":
+            toks.append(f"n:{val}")
+        elif tag == "done":
+            toks.append("done")
+        elif tag == "p":
+            pend = val
+        elif tag == "v":
+            toks.append(f"v:{pend if kind == 'pq' else 0}:{val}")
+            pend = None
+        else:
+            toks.append(f"?{tag}:{val}")
+    if r.status == "panic":
+        toks.append("panic:" + (_panic_kind(r.msg or "") if r.origin == "program" else "op:" + str(r.msg)))
+    elif r.status != "value":
+        toks.append("exit:" + str(r.msg))
+    return toks
+
+
+def _compiled(ctx, gen):
+    import feed
+    import hugr_interp as hi
+
+    stats = {"programs": 0, "runs": 0, "unsupported": 0, "out_of_fuel": 0, "lower_failed": 0}
+    if ctx.quick:
+        interp_progs = [("pq", 3, 12, 60), ("pq", 6, 20, 60), ("stack", 3, 12, 40)]
+        n_straight = 6
+    else:
+        interp_progs = [("pq", 1, 6, 60), ("pq", 2, 10, 150), ("pq", 3, 12, 400), ("pq", 4, 14, 400), ("pq", 7, 24, 500),
+                        ("pq", 12, 36, 300), ("stack", 1, 6, 60), ("stack", 3, 12, 300), ("stack", 6, 20, 200)]
+        n_straight = 40
+    jobs = []  # (kind, cap, ops, program source, args or None, hugr)
+    prelude = feed.PRELUDE + _HPRE
+
+    def lower(src):
+        try:
+            m = feed.load(src, prelude=prelude)
+            g = feed.lower(m.main)
+            stats["programs"] += 1
+            return g.hugr
+        except Exception as e:  # noqa: BLE001
+            stats["lower_failed"] += 1
+            ctx.broke(f"T-hugr: driver program does not compile with the real compiler: {type(e).__name__}: {str(e)[:300]}")
+            return None
+
+    for kind, cap, L, n in interp_progs:
+        src = _interp_src(kind, cap, L)
+        h = lower(src)
+        if h is None:
+            continue
+        for _ in range(n):
+            _k, _c, ops = gen.script(cap, kind=kind, cap=cap)
+            ops = [o for o in ops if o[0] != "next"][:L]
+            codes = [_OPCODE[o[0]] for o in ops] + [0] * (L - len(ops))
+            vals = [o[1] if o[0] == "push" else 0 for o in ops] + [0] * (L - len(ops))
+            prios = [o[2] if o[0] == "push" else 0 for o in ops] + [0] * (L - len(ops))
+            jobs.append((kind, cap, ops, src, [codes, vals, prios], h))
+    for _ in range(n_straight):
+        kind, cap, ops = gen.script(6)
+        ops = [o for o in ops if o[0] != "next"][:24]
+        src = _straight_src(kind, cap, ops)
+        h = lower(src)
+        if h is not None:
+            jobs.append((kind, cap, ops, src, None, h))
+    rp = (ctx.replay_in or {}).get("replay", {})
+    if rp.get("program"):
+        k, c, rops = _parse_line(rp["line"])
+        h = lower(rp["program"])
+        if h is not None:
+            jobs.append((k, c, [o for o in rops if o[0] != "next"], rp["program"], rp.get("args"), h))
+    # the model's reply for script + iteration to the end (`next` until done: cap+1 calls always suffice)
+    full = [(k, c, list(ops) + [("next",)] * (c + 1)) for k, c, ops, *_ in jobs]
+    lines = [_line(*f) for f in full]
+    model = ctx.driver(DRIVER, lines) if lines else []
+    for (kind, cap, ops, src, args, h), (fk, fc, fops), line, m in zip(jobs, full, lines, model):
+        mt = m.partition(" | ")[0].split(" ")
+        per_order = {}
+        for order in ("default", "adversarial"):
+            try:
+                r = hi.run(h, "main", args or [], order=order)
+            except hi.Unsupported as e:
+                stats["unsupported"] += 1
+                ctx.bump("hugr:unsupported:" + str(e)[:40])
+                continue
+            except hi.OutOfFuel:
+                stats["out_of_fuel"] += 1
+                continue
+            except Exception as e:  # noqa: BLE001  (InterpError: ill-formed HUGR or interpreter bug — never skipped silently)
+                ctx.broke(f"T-hugr: interpreter failed on the lowering of `{line}` ({'runtime script' if args else 'straight-line'}): "
+                          f"{type(e).__name__}: {str(e)[:200]}")
+                continue
+            stats["runs"] += 1
+            toks = _trace_tokens(kind, r)
+            per_order[order] = toks
+            reply = " ".join(toks) + " | aborted"
+            bad = oracle(kind, cap, fops, reply)
+            ctx.count("hugr " + order + " " + line, nontrivial=_nontrivial(ops, reply),
+                      kind=f"hugr:{kind}:{'rt' if args else 'src'}:{toks[-1].split(':')[0] if not toks[-1].startswith('panic') else toks[-1]}")
+            if bad is not None:
+                ctx.violation(
+                    f"input:hugr {'rt' if args else 'src'} {line}",
+                    f"compiled {'Stack' if kind == 'stack' else 'PriorityQueue'} (lowered by the real compiler, run on the reference "
+                    f"interpreter, {order} schedule) deviates from its reference model on `{line}`: {bad}",
+                    {"line": line, "program": src, "args": args, "order": order, "interpreter": reply, "oracle": bad, "model": m},
+                )
+            if toks != mt:
+                ctx.broke(f"correspondence Model/Coll.lean vs compiled HUGR ({order}) on `{line}` (hugr=`{' '.join(toks)}` model=`{' '.join(mt)}`)")
+        if len(per_order) == 2 and per_order["default"] != per_order["adversarial"]:
+            ctx.violation(
+                f"order:hugr {line}",
+                f"compiled program behaves differently under two legal schedules on `{line}`: default=`{' '.join(per_order['default'])}` "
+                f"adversarial=`{' '.join(per_order['adversarial'])}`",
+                {"line": line, "program": src, "args": args, "default": per_order["default"], "adversarial": per_order["adversarial"]},
+            )
+    ctx.extra["compiled_path"] = stats
+
+
 def tie(ctx):
     real = Real(ctx)
     for d in real.drift:
         ctx.broke(d)
     cases = _cases(ctx, ctx.n(1500, 60000), exhaustive=not ctx.quick)
     _evaluate(ctx, real, cases)
+    try:
+        _compiled(ctx, _Gen(ctx.rng))
+    except vlib.Infra:
+        raise
+    except Exception as e:  # noqa: BLE001
+        ctx.broke(f"T-hugr: compiled-path tie crashed: {type(e).__name__}: {str(e)[:300]}")
 
 
 def search(ctx, why):
